@@ -24,6 +24,7 @@ import (
 
 	jobSource "github.com/mimiro-io/datahub/internal/jobs/source"
 	"github.com/mimiro-io/datahub/internal/server"
+	"github.com/mimiro-io/datahub/internal/verifhook"
 )
 
 const defaultBatchSize = 10000
@@ -76,6 +77,7 @@ func (pipeline *FullSyncPipeline) sync(job *job, ctx context.Context) (int, erro
 	if err != nil {
 		return 0, err
 	}
+	verifhook.Point(runner, "pipeline.full.afterStart")
 	syncJobState.ContinuationToken = ""
 	entCnt := 0
 	tags := []string{"application:datahub", "job:" + job.title}
@@ -96,6 +98,9 @@ func (pipeline *FullSyncPipeline) sync(job *job, ctx context.Context) (int, erro
 					// apply transform if it exists
 					if pipeline.transform != nil {
 						transformTS := time.Now()
+						if ferr := verifhook.FaultOn(runner, "transform.batch", entities); ferr != nil {
+							return ferr
+						}
 						entities, err2 = pipeline.transform.transformEntities(runner, entities, job.title)
 						_ = runner.statsdClient.Timing("pipeline.transform.batch", time.Since(transformTS), tags, 1)
 						if err2 != nil {
@@ -110,6 +115,7 @@ func (pipeline *FullSyncPipeline) sync(job *job, ctx context.Context) (int, erro
 					if err2 != nil {
 						return err2
 					}
+					verifhook.Point(runner, "pipeline.full.afterBatch")
 				}
 
 				// capture token if there is one
@@ -149,10 +155,12 @@ func (pipeline *FullSyncPipeline) sync(job *job, ctx context.Context) (int, erro
 	}
 
 	pipeline.source.EndFullSync()
+	verifhook.Point(runner, "pipeline.full.beforeEnd")
 	err = pipeline.sink.endFullSync(ctx, runner)
 	if err != nil {
 		return entCnt, err
 	}
+	verifhook.Point(runner, "pipeline.full.afterEnd")
 
 	if pipeline.transform != nil {
 		err = pipeline.transform.EndStoreContext(job.id)
@@ -238,7 +246,13 @@ func (pipeline *IncrementalPipeline) sync(job *job, ctx context.Context) (int, e
 						workResults := make([]presult, parallelisms)
 
 						local := func(workId int, lentities []*server.Entity, wg *sync.WaitGroup) {
+							verifhook.Go(runner, "transform.worker")
 							res := presult{}
+							if ferr := verifhook.FaultOn(runner, "transform.batch", lentities); ferr != nil {
+								workResults[workId] = presult{err: ferr}
+								wg.Done()
+								return
+							}
 							if reflect.TypeOf(pipeline.transform) == reflect.TypeOf(&JavascriptTransform{}) {
 								t := pipeline.transform.(*JavascriptTransform)
 								tc, _ := t.Clone()
@@ -299,6 +313,7 @@ func (pipeline *IncrementalPipeline) sync(job *job, ctx context.Context) (int, e
 					if err != nil {
 						return err
 					}
+					verifhook.Point(runner, "pipeline.incr.afterSink")
 				}
 
 				// store token if there is one
@@ -312,6 +327,7 @@ func (pipeline *IncrementalPipeline) sync(job *job, ctx context.Context) (int, e
 					if err != nil {
 						return err
 					}
+					verifhook.Point(runner, "pipeline.incr.afterToken")
 				}
 
 				if incomingEntityCount == 0 || // if this was the last page (empty) of a tokenized source
